@@ -116,7 +116,15 @@ def run(v, tier, rng):
         scale.append((cases[-1]["id"], nops))
     add("deep-nesting", text="\tDD\t" + "(" * 100000 + "1" + ")" * 100000 + "\n")
     t0 = time.time()
-    res = lib.run_cases([{k: c[k] for k in c if k in ("id", "srcs", "srcs_hex")} for c in cases], "c13")
+    small = [c for c in cases if not c["kind"].startswith(("scale", "deep"))]
+    big = [c for c in cases if c["kind"].startswith(("scale", "deep"))]
+    res = lib.run_cases([{k: c[k] for k in c if k in ("id", "srcs", "srcs_hex")} for c in small], "c13")
+    old = lib.CASE_TIMEOUT
+    lib.CASE_TIMEOUT = 900           # the scaling inputs are measured, not raced against the small-case watchdog
+    try:
+        res.update(lib.run_cases([{k: c[k] for k in c if k in ("id", "srcs", "srcs_hex")} for c in big], "c13b", jobs=len(big)))
+    finally:
+        lib.CASE_TIMEOUT = old
     hist = {}
     nontriv = set()
     for c in cases:
